@@ -28,8 +28,8 @@ def run(c):
               T + "TransactionBody::verify_cut_through"], via=0)
     c.r1_all("features", T + "TransactionBody::verify_features",
              [T + "TransactionBody::verify_output_features", T + "TransactionBody::verify_kernel_features"], via=0)
-    c.r2("no-coinbase-output-in-tx", T + "TransactionBody::verify_output_features", cond=r"any\(slice::iter\(arg0\.outputs\)", err="InvalidOutputFeatures")
-    c.r2("no-coinbase-kernel-in-tx", T + "TransactionBody::verify_kernel_features", cond=r"any\(slice::iter\(arg0\.kernels\)", err="InvalidKernelFeatures")
+    c.r2("no-coinbase-output-in-tx", T + "TransactionBody::verify_output_features", cond=r"Iterator::any\(slice::iter\(arg0\.outputs\)", err="InvalidOutputFeatures")
+    c.r2("no-coinbase-kernel-in-tx", T + "TransactionBody::verify_kernel_features", cond=r"Iterator::any\(slice::iter\(arg0\.kernels\)", err="InvalidKernelFeatures")
     for i, (fn, atom) in enumerate(((T + "TransactionBody::verify_output_features::{closure#0}", "Output::is_coinbase"),
                                     (T + "TransactionBody::verify_kernel_features::{closure#0}", "TxKernel::is_coinbase"))):
         c.r1("feature-closure-%d" % i, fn, "re:::is_coinbase$", sink="return", via=0, desc="%s tests is_coinbase" % fn)
